@@ -58,8 +58,8 @@ CHECKS['C01'] = dict(
          'malt.to_graph(original) on seeded generated programs x decision vectors x option sets (recursive on/off, feature sets) and '
          'compares return value, ordered external-call log, exception type, mutated arguments and module globals.',
     note=NOTE_BASE + 'Composition of all passes is validated by differential testing only. Known findings listed in '
-         'known_findings.json (for-loop target killed on the loop-exit edge; LISTS augmented subscript assignment).',
-    technique='Coq proof over generated pipeline table + differential testing against CPython (partial)',
+         'known_findings.json (for-loop target killed on the loop-exit edge; LISTS augmented subscript assignment; chained equality with the EQUALITY_OPERATORS feature; closure variables of stored lambdas).',
+    technique='Coq proofs by mutual induction over big-step semantics (lowering, functionalisation, expression passes) + generated operator/pipeline tables + structural and semantic model/implementation correspondence + differential oracle against CPython (partial: composition validated)',
     design='4/C01')
 CHECKS['C16'] = dict(
     text='Kernel-checked theorems state, for all call trees mixing every wrapper of the API with exceptions raised at any node and '
